@@ -283,4 +283,13 @@ def main():
 
 
 if __name__ == '__main__':
-    sys.exit(main())
+    try:
+        rc = main()
+    except SystemExit:
+        raise
+    except BaseException as e:   # a crash of the machinery is never an alarm
+        import traceback
+        traceback.print_exc()
+        print('UNDECIDED internal error in the check machinery: %r' % (e,))
+        rc = 2
+    sys.exit(rc)
